@@ -24,12 +24,19 @@ theorem cur_state_closure_manager :
 theorem cur_state_registry :
     Skeleton.current.stateRegistry = ["wrappedChild", "R", "map[string]R", "*sync.Mutex", "*RegistryHooks"] := by decide
 
+/-- Lock regions: the models treat each critical section as one atomic step and no mutex as held between
+    steps (except where a fact says otherwise).  That needs every function body to release what it locks on
+    EVERY path — no `return` while holding, branches that rejoin agree, loops neutral, or a deferred unlock
+    (a structural check of all function declarations and literals, on the source as written). -/
+theorem cur_locks_balanced : Skeleton.current.locksBalanced = true := by decide
+
 /-- …and there is no mutable package-level state (nothing a model would have to share between registries). -/
 theorem cur_state_no_globals : Skeleton.current.stateGlobals = [] := by decide
 
 end Panrpc.State
 
 #print axioms Panrpc.State.cur_state_no_globals
+#print axioms Panrpc.State.cur_locks_balanced
 
 #print axioms Panrpc.State.cur_state_broadcaster
 #print axioms Panrpc.State.cur_state_closure_manager
